@@ -15,6 +15,7 @@ from scipy.constants import k as kB, e as qe
 from sim import core, seams, common
 from sim.core import Violation
 from sim.seams import ScriptedRNG
+from sim.pristine import Pristine
 
 PROPERTY = "C09"
 RULE = ("seeded bench histories: gv reconfigurations, then PD bundles (input field CW/tone/random x 1/2 polarisations "
@@ -30,7 +31,9 @@ COMPONENTS_REAL = ["opticomlib.devices.PD", "opticomlib.devices.LPF", "opticomli
 COMPONENTS_STUB = ["np.random.normal/randn/standard_normal/randint/choice inside Layer-B twins (ScriptedRNG)",
                    "opticomlib.utils.tm (SimClock)"]
 ASSUMPTIONS = [
-    "the library's own LPF (C11's subject) is trusted as the output filter; physical constants from scipy.constants",
+    "the library's own LPF (C11's subject) is trusted as the output filter, but the reference is evaluated in a "
+    "pristine process (only the gv history replayed) after every grid change and for 30% of the other bundles, so "
+    "a stale/memoised filter design cannot agree with itself; physical constants from scipy.constants",
     "Gaussian draws may be split or merged by a refactor: only the sum of squared effective scales is asserted",
     "R_load = 0 and T = 0 edge values: only negative values are required to raise",
     "if the seam sees no request although the output is noisy (generator moved), the bundle falls back to seeded "
@@ -70,7 +73,8 @@ def generate(seed, tier):
             op.update({"r": rng.choice([1.0, 1, 0.5, rng.uniform(0.05, 1.0)]),
                        "T": rng.choice([300.0, 0, 77, rng.uniform(1, 400)]),
                        "R_load": rng.choice([50.0, 50, 1e3, rng.uniform(10, 1e4)]),
-                       "BWf": rng.uniform(0.03, 0.45), "i_dark": rng.choice([10e-9, 0.0, 1e-6, 1e-12]),
+                       "BWf": rng.uniform(0.03, 0.45), "BWabs": rng.choice([None, 0.5e9, 2e9, 5e9, 10e9]),
+                       "iso": rng.random() < 0.3, "i_dark": rng.choice([10e-9, 0.0, 1e-6, 1e-12]),
                        "Fn": rng.choice([0, 0.0, 3.0, rng.uniform(0, 10)]),
                        "include": _case(rng.choice(INCLUDES), rng), "seed": rng.getrandbits(31),
                        "extras": rng.sample(["phase", "unitary", "scale_r", "scale_R", "scale_amp"], rng.randint(1, 3))})
@@ -137,6 +141,8 @@ def build_field(op, fs):
 
 class Bench:
     def __init__(self, rec):
+        self.pristine = Pristine()        # forked before this run touches the library
+        self.after_gv = True
         from opticomlib.devices import PD, LPF
         from opticomlib.typing import optical_signal, electrical_signal, gv
         self.PD, self.LPF, self.O, self.E, self.gv = PD, LPF, optical_signal, electrical_signal, gv
@@ -153,8 +159,27 @@ class Bench:
 
     def op_gv(self, op):
         common.apply_gv(op["kw"])
+        self.pristine.gv(op["kw"])
+        self.after_gv = True
         self.rec.fault("gv_reconf")
         return f"{self.gv.fs:.3e}"
+
+    def _bw(self, op):
+        fs = float(self.gv.fs)
+        b = op.get("BWabs")
+        if b is not None and 0.02 * fs < b < 0.45 * fs:
+            return float(b)
+        return op["BWf"] * fs
+
+    def _lpf_ref(self, arr, bw, isolated):
+        """The trusted output filter: the library's own LPF, optionally executed in a pristine process."""
+        if isolated:
+            ans = self.pristine.ask("lpf", np.asarray(arr, dtype=float), bw)
+            if ans[0] != "ok":
+                raise RuntimeError(f"pristine LPF failed: {ans}")
+            self.rec.probe("reference filter evaluated in a pristine process")
+            return np.asarray(ans[1], dtype=float)
+        return np.asarray(self.LPF(self.E(arr), bw).signal, dtype=float)
 
     def op_reseed(self, op):
         np.random.seed(op["s"])
@@ -167,7 +192,7 @@ class Bench:
 
     # ------------------------------------------------------------------------------------
     def _pd(self, x, op, **over):
-        kw = dict(BW=op["BWf"] * self.gv.fs, r=op["r"], T=op["T"], R_load=op["R_load"],
+        kw = dict(BW=self._bw(op), r=op["r"], T=op["T"], R_load=op["R_load"],
                   include_noise=op["include"], i_dark=op["i_dark"], Fn=op["Fn"])
         kw.update(over)
         return self.PD(x, **kw)
@@ -223,7 +248,10 @@ class Bench:
         Es = sig if sig.ndim == 2 else sig[None, :]
         P_t = np.sum(np.abs(Es) ** 2, axis=0)
         i_sig = r * P_t
-        ref_sig = np.asarray(self.LPF(self.E(i_sig * R), op["BWf"] * fs).signal, dtype=float)
+        isolated = bool(op.get("iso")) or self.after_gv
+        self.after_gv = False
+        bw = self._bw(op)
+        ref_sig = self._lpf_ref(i_sig * R, bw, isolated)
         scale_s = max(np.max(np.abs(ref_sig)), 1e-300)
         if not np.allclose(s0, ref_sig, rtol=1e-9, atol=1e-12 * scale_s):
             j = int(np.argmax(np.abs(s0 - ref_sig)))
@@ -243,7 +271,7 @@ class Bench:
             Pn_mean = float(np.mean(np.sum(np.abs(Nn) ** 2, axis=0)))
             if ase:
                 det = det + r * np.sum(2 * np.real(Es * np.conj(Nn)) + np.abs(Nn) ** 2, axis=0)
-        ref_n0 = np.asarray(self.LPF(self.E(det * R), op["BWf"] * fs).signal, dtype=float)
+        ref_n0 = self._lpf_ref(det * R, bw, isolated)
         scale_n = max(np.max(np.abs(ref_n0)), np.max(np.abs(n0)), 1e-300)
         var_exp = 0.0
         if th:
@@ -310,7 +338,7 @@ class Bench:
             di = np.asarray(yi.noise, dtype=float) - n0
             imp = np.zeros(n)
             imp[pos] = a[k] * R
-            ref_i = np.asarray(self.LPF(self.E(imp), op["BWf"] * fs).signal, dtype=float)
+            ref_i = self._lpf_ref(imp, bw, False)
             tol = 1e-6 * max(np.max(np.abs(ref_i)), 1e-300) + 1e-9 * scale_n
             if np.max(np.abs(di - ref_i)) > tol:
                 raise Violation("C09/white", f"{what}: a single non-zero sample of draw #{k} does not come out as the "
@@ -378,7 +406,8 @@ class Bench:
             raise Violation("C09/len", f"{what}: PD modified its input", "mutate")
         self.rec.ok_ops += 1
         fsd = int(np.floor(np.log10(fs)))
-        self.rec.sig(inc, op["npol"], op["innoise"] or "-", fsd, "lo" if op["BWf"] < 0.1 else "mid" if op["BWf"] < 0.3 else "hi",
+        bwf = bw / fs
+        self.rec.sig(inc, op["npol"], op["innoise"] or "-", fsd, "lo" if bwf < 0.1 else "mid" if bwf < 0.3 else "hi",
                      op["field"])
         return f"units={units}:var={got:.6e}:{core.array_digest(s0)[:8]}"
 
@@ -390,7 +419,7 @@ class Bench:
         inc = op["include"].lower()
         imp = np.zeros(4096)
         imp[2048] = 1.0
-        h = np.asarray(self.LPF(self.E(imp), op["BWf"] * fs).signal, dtype=float)
+        h = np.asarray(self.LPF(self.E(imp), self._bw(op)).signal, dtype=float)
         g = float(np.sum(h ** 2))
         P = op["P"]
         r, T, R, idk, Fn = float(op["r"]), float(op["T"]), float(op["R_load"]), op["i_dark"], op["Fn"]
@@ -444,5 +473,8 @@ class Bench:
 
 def execute(spec, rec, known):
     b = Bench(rec)
-    core.run_ops(b, spec["ops"], rec, "C09/args", "C09/len")
+    try:
+        core.run_ops(b, spec["ops"], rec, "C09/args", "C09/len")
+    finally:
+        b.pristine.close()
     rec.sim_s = b.clock.covered
